@@ -875,6 +875,8 @@ noncomputable def evalE (env : String → ℝ) : RExpr → Except PyExc ℝ
   | .ceil a => match evalE env a with
     | .ok x => .ok ((⌈x⌉ : ℤ) : ℝ)
     | .error e => .error e
+  | .min a b => match evalE env a, evalE env b with
+    | .ok x, .ok y => .ok (min x y) | .error e, _ => .error e | _, .error e => .error e
 
 /-- `try: … except <names>: return <value>` -/
 noncomputable def handle (h : List String × Rat) (r : Except PyExc ℝ) : Except PyExc ℝ :=
@@ -1141,7 +1143,7 @@ theorem tie_arc :
     chordExpr = .mul (.num 2) (.sqrt (.sub (.mul (.mul (.num 2) (.var "radius")) (.var "sagitta"))
       (.mul (.var "sagitta") (.var "sagitta")))) ∧
     chordHandler = (["ValueError"], 0) ∧
-    alphaExpr = .mul (.asin (.div (.div (.var "chord_length") (.num 2)) (.var "radius"))) (.num 2) ∧
+    alphaExpr = .mul (.asin (.min (.div (.div (.var "chord_length") (.num 2)) (.var "radius")) (.num 1))) (.num 2) ∧
     countExpr = .ceil (.div (.var "angle") (.var "alpha")) ∧
     countHandler = (["ValueError", "ZeroDivisionError"], 1) := by
   refine ⟨?_, ?_, ?_, ?_, ?_, ?_⟩ <;> rfl
